@@ -82,3 +82,68 @@ package smtp
 //@   requires[C17:armed] d != nil && carm(d.c)
 //@ func smtp.dataCloser.Close
 //@   requires[C17:armed] d != nil && carm(d.c)
+
+// ---------------------------------------------------------------------------
+// C03 / C04  SMTP dialogue typestate (ghost state on c.Text, see /verif/engine/stdlib/proto.spec)
+//
+//@ func smtp.NewClient (conn, host) (c, err)
+//@   ensures[C03,C04:fresh] err == nil ==> c != nil && quiet0(c.Text) && idle0(c.Text) && !c.didHello
+//@ func smtp.Client.Close
+//@   requires[C03,C04:wf] c != nil && c.Text != nil
+//@   ensures[C03,C04:closed] !c.Text.tconn.sock.open && tsame(c.Text)
+//@ func smtp.Client.cmd (expectCode, format, args) (code, msg, err)
+//@   requires[C03,C04:in-step] c != nil && quiet(c.Text)
+//@   requires[C04:legal] !c.Text.ioerr && c.Text.tconn.sock.open ==> legal(c.Text.txn, c.Text.acc, c.Text.rej, kind(format))
+//@   ensures[C03,C04:in-step] instep(c.Text)
+//@   ensures[C03,C04:closed-fails] !c.Text.tconn.sock.open ==> c.Text.ioerr
+//@   ensures[C03,C04:step] !c.Text.ioerr ==> (err == nil ==> stepok(c.Text, kind(format), old(c.Text.txn), old(c.Text.acc), old(c.Text.rej), old(c.Text.eodacks))) && (err != nil ==> stepfail(c.Text, kind(format), old(c.Text.txn), old(c.Text.acc), old(c.Text.rej), old(c.Text.eodacks)))
+//@ func smtp.Client.hello
+//@   requires[C03,C04:in-step] c != nil && quiet(c.Text)
+//@   ensures[C03,C04:in-step] quiet(c.Text) && c.didHello && (old(c.didHello) ==> tsame(c.Text)) && (old(idle0(c.Text)) ==> idle0(c.Text)) && (!c.Text.ioerr ==> c.Text.eodacks == old(c.Text.eodacks))
+//@ func smtp.Client.ehlo
+//@   requires[C03,C04:in-step] c != nil && quiet(c.Text)
+//@   ensures[C03,C04:in-step] quiet(c.Text) && (old(idle0(c.Text)) ==> idle0(c.Text)) && (!c.Text.ioerr ==> c.Text.eodacks == old(c.Text.eodacks))
+//@   ensures[C04:ext-replaced] r0 == nil ==> c.ext != nil && fresh(c.ext)
+//@ func smtp.Client.helo
+//@   requires[C03,C04:in-step] c != nil && quiet(c.Text)
+//@   ensures[C03,C04:in-step] quiet(c.Text) && (old(idle0(c.Text)) ==> idle0(c.Text)) && (!c.Text.ioerr ==> c.Text.eodacks == old(c.Text.eodacks))
+//@   ensures[C04:ext-dropped] c.ext == nil
+//@ func smtp.Client.Hello
+//@   requires[C04:in-step] c != nil && quiet(c.Text) && idle0(c.Text)
+//@   ensures[C04:in-step] quiet(c.Text) && idle0(c.Text) && (r0 == nil ==> c.didHello)
+//@ func smtp.Client.Extension
+//@   requires[C03,C04:in-step] c != nil && quiet(c.Text)
+//@   ensures[C03,C04:in-step] quiet(c.Text) && c.didHello && (old(c.didHello) ==> tsame(c.Text)) && (old(idle0(c.Text)) ==> idle0(c.Text))
+//@ func smtp.Client.StartTLS
+//@   requires[C04:in-step] c != nil && quiet(c.Text) && idle0(c.Text)
+//@   ensures[C04:in-step] c.Text != nil && quiet0(c.Text) && idle0(c.Text) && (old(c.didHello) ==> c.didHello)
+//@ at smtp.Client.StartTLS textproto.NewConn#1 after ghost result.greeted = true
+//@ func smtp.Client.Auth
+//@   requires[C04:in-step] c != nil && quiet(c.Text) && idle0(c.Text)
+//@   ensures[C04:in-step] r0 == nil ==> quiet(c.Text) && idle0(c.Text) && (old(c.didHello) ==> c.didHello)
+//@   loop 1 invariant[C04:in-step] quiet(c.Text) && idle0(c.Text) && c.didHello
+//@ func smtp.Client.Mail
+//@   requires[C03,C04:in-step] c != nil && c.didHello && quiet(c.Text) && txidle(c.Text)
+//@   ensures[C03,C04:step] quiet(c.Text) && c.didHello && (!c.Text.ioerr ==> c.Text.eodacks == old(c.Text.eodacks)) && (!c.Text.ioerr && c.Text.tconn.sock.open ==> (r0 == nil ==> c.Text.txn == 1 && c.Text.acc == 0 && c.Text.rej == 0) && (r0 != nil ==> c.Text.txn == 0))
+//@ func smtp.Client.Rcpt
+//@   requires[C03,C04:in-step] c != nil && quiet(c.Text) && (live(c.Text) ==> c.Text.txn == 1 || c.Text.txn == 2)
+//@   ensures[C03,C04:step] quiet(c.Text) && (!c.Text.ioerr ==> c.Text.eodacks == old(c.Text.eodacks)) && (live(c.Text) ==> (c.Text.txn == 1 || c.Text.txn == 2) && (r0 == nil ==> c.Text.txn == 2 && c.Text.acc == old(c.Text.acc) + 1 && c.Text.rej == old(c.Text.rej)) && (r0 != nil ==> (c.Text.txn == old(c.Text.txn) || c.Text.txn == 2) && c.Text.acc == old(c.Text.acc) && c.Text.rej >= old(c.Text.rej)))
+//@ func smtp.Client.Data () (w, err)
+//@   requires[C03,C04:in-step] c != nil && quiet(c.Text) && (live(c.Text) ==> c.Text.txn == 2 && c.Text.acc >= 1 && c.Text.rej == 0)
+//@   ensures[C03,C04:step] c.Text != nil && c.Text.greeted && (old(c.Text.ioerr) ==> c.Text.ioerr) && (!c.Text.ioerr ==> c.Text.eodacks == old(c.Text.eodacks) && c.Text.pending == 0)
+//@   ensures[C03,C04:open] err == nil ==> w != nil && istype(w, "*smtp.dataCloser") && as(w, "*smtp.dataCloser").c == c && (!c.Text.ioerr ==> c.Text.indata && c.Text.txn == 3)
+//@   ensures[C03,C04:refused] err != nil ==> quiet(c.Text) && (live(c.Text) ==> c.Text.txn == 2)
+//@ func smtp.dataCloser.Close
+//@   requires[C03,C04:open] d != nil && d.c != nil && d.c.Text != nil && d.c.Text.greeted && (!d.c.Text.ioerr ==> d.c.Text.indata && d.c.Text.pending == 0 && d.c.Text.txn == 3)
+//@   ensures[C03,C04:closed] quiet(d.c.Text) && idle0(d.c.Text) && (!d.c.Text.ioerr ==> (r0 == nil ==> d.c.Text.eodacks == old(d.c.Text.eodacks) + 1) && (r0 != nil ==> d.c.Text.eodacks == old(d.c.Text.eodacks)))
+//@ at smtp.dataCloser.Close io.Closer.Close#1 after ghost d.c.Text.indata = false
+//@ at smtp.dataCloser.Close io.Closer.Close#1 after ghost d.c.Text.pending = d.c.Text.pending + 1
+//@ at smtp.dataCloser.Close io.Closer.Close#1 after ghost d.c.Text.lastKind = 12
+//@ func smtp.Client.Reset
+//@   requires[C03,C04:in-step] c != nil && c.didHello && quiet(c.Text)
+//@   ensures[C03,C04:step] quiet(c.Text) && c.didHello && (!c.Text.ioerr ==> c.Text.eodacks == old(c.Text.eodacks) && (r0 == nil ==> c.Text.txn == 0 && c.Text.acc == 0 && c.Text.rej == 0) && (r0 != nil ==> c.Text.txn == old(c.Text.txn) && c.Text.acc == old(c.Text.acc) && c.Text.rej == old(c.Text.rej)))
+//@ func smtp.Client.Noop
+//@   requires[C03,C04:in-step] c != nil && c.didHello && quiet(c.Text)
+//@   ensures[C03,C04:step] quiet(c.Text) && c.didHello && txsame(c.Text)
+//@ func smtp.Client.Quit
+//@   requires[C04:in-step] c != nil && quiet(c.Text)
